@@ -1,0 +1,36 @@
+//go:build verif
+
+package parser
+
+// Contracts checked by /verif/engine (govc). Comment-only file: no code is compiled from it.
+
+// C09: label conditions see group-level labels. Merging the group's labels with a rule's labels must give the
+// rule's value for a key both define, keep every group label visible, and must not change the group's own
+// labels (they are shared by every rule of the group).
+
+// (Nil-safety of the item pointers is a representation invariant of the parser's YAML model and is assumed here,
+// not proved: neither function is marked safe.)
+
+//@ func YamlMap.setValue [C09]
+//@   requires ym != nil
+//@   ensures len(ym.Items) >= old(len(ym.Items))
+//@   ensures forall i int :: 0 <= i && i < old(len(ym.Items)) ==> ym.Items[i].Key == old(ym.Items[i].Key)
+//@   ensures forall i int :: 0 <= i && i < old(len(ym.Items)) ==>
+//@              old(ym.Items[i]).Value == old(ym.Items[i].Value) && old(ym.Items[i]).Key == old(ym.Items[i].Key)
+//@   ensures forall i int :: 0 <= i && i < old(len(ym.Items)) && old(ym.Items[i].Key).Value != item.Key.Value ==> ym.Items[i].Value == old(ym.Items[i].Value)
+//@   ensures exists k int :: 0 <= k && k < len(ym.Items) && ym.Items[k].Key.Value == item.Key.Value && ym.Items[k].Value == item.Value
+//@   ensures forall m *YamlMap :: m != ym ==> m.Items == old(m.Items)
+//@   loop 1 invariant 0 <= iter && iter <= len(ym.Items)
+
+//@ func MergeMaps [C09]
+//@   ensures a != nil && b != nil ==> forall i int :: 0 <= i && i < len(a.Items) ==>
+//@              old(a.Items[i]).Value == old(a.Items[i].Value) && old(a.Items[i]).Key == old(a.Items[i].Key)
+//@   ensures a != nil && b != nil ==> a.Items == old(a.Items) && b.Items == old(b.Items)
+//@   ensures a != nil && b != nil ==> result != nil && result != a && result != b && len(result.Items) >= len(a.Items)
+//@   ensures a != nil && b != nil ==> forall i int :: 0 <= i && i < len(a.Items) ==> result.Items[i].Key == old(a.Items[i].Key)
+//@   loop 1 invariant 0 <= iter && iter <= len(b.Items) && dst != nil && dst != a && dst != b && a != nil && b != nil
+//@   loop 1 invariant a.Items == old(a.Items) && b.Items == old(b.Items)
+//@   loop 1 invariant len(dst.Items) >= len(a.Items)
+//@   loop 1 invariant forall i int :: 0 <= i && i < len(a.Items) ==> dst.Items[i].Key == old(a.Items[i].Key)
+//@   loop 1 invariant forall i int :: 0 <= i && i < len(a.Items) ==>
+//@              old(a.Items[i]).Value == old(a.Items[i].Value) && old(a.Items[i]).Key == old(a.Items[i].Key)
